@@ -21,6 +21,7 @@ type c13Stream struct {
 	RoleOnly bool     `json:"r,omitempty"` // the stream legitimately changes the node's role: only "no crash" is judged
 	Expect   int      `json:"e,omitempty"` // >0: number of reply bytes the attacker connection must receive
 	Follower bool     `json:"f,omitempty"` // the stream (and the witness) go to a follower of a live leader: requests are forwarded
+	After    [][]byte `json:"a,omitempty"` // sent after the stream, each on a connection of its own (readers of what the stream left behind)
 }
 
 func c13Cfg() hapi.Config { return hapi.Config{FastKeys: 4, Concurrent: 1} }
@@ -80,6 +81,17 @@ func runStream(st *c13Stream) (viol *explore.Violation, obs string, engErr strin
 		vrt.AdvanceTo(vrt.Elapsed() + 300*ms)
 		a.Pump()
 		obs = fmt.Sprintf("attacker got %d bytes, closed=%v", len(a.In), a.Closed)
+		for _, b := range st.After {
+			rc, err := wire.Dial(addr)
+			if err != nil {
+				witnessMsg = "after the attack a new connection is refused: " + err.Error()
+				return
+			}
+			_ = rc.Send(b)
+			vrt.AdvanceTo(vrt.Elapsed() + 50*ms)
+			rc.Pump()
+			obs += fmt.Sprintf(" reader:%d", len(rc.In))
+		}
 		if st.RoleOnly {
 			return
 		}
@@ -758,8 +770,105 @@ func c13FollowerStreams(quick bool) []c13Stream {
 	return out
 }
 
+// c13SyncHandshakeStreams: any client may claim to be a follower: CALL SYNC, the "sync started" marker, and from
+// then on the leader reads 64-byte acknowledgement frames, each optionally followed by a value frame. Every
+// acknowledgement flag byte with the "value follows" bit x every short / inconsistent value frame.
+func c13SyncHandshakeStreams(quick bool) []c13Stream {
+	var out []c13Stream
+	cc := protocol.NewCallCommand("SYNC", nil)
+	call := make([]byte, 64)
+	_ = cc.Encode(call)
+	started := frame(0, func(b []byte) {
+		for i := 3; i < 19; i++ {
+			b[i] = 0xff
+		}
+	})
+	frames := [][]byte{{0, 0, 0, 0}, {1, 0, 0, 0, 0}, {2, 0, 0, 0, 0, 0}, {2, 0, 0, 0, 0, 0x10}, {3, 0, 0, 0, 0, 0x10, 9}, {4, 0, 0, 0, 0, 0x10, 0xff, 0xff}, {6, 0, 0, 0, 0, 0x10, 1, 0, 9, 9}, {8, 0, 0, 0, 2, 1, 1, 2, 3, 4, 5, 6}, protocol.NewLockCommandDataSetString("v").Data}
+	for _, t := range []uint8{1, 2, 0, 9} {
+		for _, fl := range []byte{0x20, 0x21, 0xff} {
+			for vi, vf := range frames {
+				for _, handshake := range []string{"full", "no-started-marker"} {
+					ack := frame(t, func(b []byte) { b[20], b[36], b[52] = fl, 1, 1 })
+					parts := [][]byte{call}
+					if handshake == "full" {
+						parts = append(parts, started)
+					}
+					parts = append(parts, ack, vf)
+					st := whole(fmt.Sprintf("bin/sync-handshake/%s/ack-type%d/flag%02x/value%d", handshake, t, fl, vi), parts...)
+					out = append(out, st)
+				}
+			}
+		}
+	}
+	return out
+}
+
+// c13NestedValueStreams: an EXECUTE operation whose embedded LOCK carries a value frame of its own. Three lengths
+// meet: the outer frame's, the embedded frame's and the property block's inside it. Every combination of embedded
+// length x property length (inside / at the end of / beyond the embedded frame, beyond the outer frame) x padding
+// behind the embedded frame x operation type is sent, for the stage that runs at once and the one that runs at
+// the unlock; afterwards other connections read and reshape the inner key's value in every way the protocols offer
+// (text GET / STRLEN / GETSET, binary SHIFT / POP / INCR / APPEND), because a value that slipped through with
+// inconsistent lengths hurts its readers, not its writer.
+func c13NestedValueStreams(quick bool) []c13Stream {
+	var out []c13Stream
+	emb := &protocol.LockCommand{}
+	emb.Magic, emb.Version, emb.CommandType, emb.Flag = protocol.MAGIC, protocol.VERSION, 1, 0x20
+	emb.LockKey[15], emb.LockId[15], emb.Expried, emb.Count = 'N', 78, 20, 5
+	eb := make([]byte, 64)
+	_ = emb.Encode(eb)
+	reader := func(id byte, d []byte) []byte {
+		return wire.BinFrame(hapi.Cmd{Type: 1, Req: id, Key: 'N', Id: id, Expried: 5, Count: 5, Data: d})
+	}
+	after := [][]byte{
+		wire.Resp("GET", "N"), wire.Resp("STRLEN", "N"),
+		reader(81, protocol.NewLockCommandDataShiftData(1).Data), reader(82, protocol.NewLockCommandDataPopData(1).Data),
+		reader(83, []byte{4, 0, 0, 0, 2, 0, 9, 9}), reader(84, protocol.NewLockCommandDataAppendString("z").Data),
+		wire.Resp("GETSET", "N", "w"), wire.Resp("GET", "N"),
+	}
+	stages := []uint8{0, 1}
+	opts := []byte{0, 2, 3, 4, 7, 8}
+	pads := []int{0, 1, 4, 24, 64}
+	if quick {
+		stages, opts, pads = []uint8{0}, []byte{0, 3, 7}, []int{0, 4, 24}
+	}
+	for _, stage := range stages {
+		for _, opt := range opts {
+			for _, d := range []int{4, 5, 8, 12} {
+				for _, pl := range []int{0, 1, d - 4, d - 3, d, d + 3, d + 16, 60, 0xffff} {
+					if pl < 0 || (quick && d == 12) {
+						continue
+					}
+					for _, pad := range pads {
+						nested := make([]byte, 4+d)
+						nested[0], nested[4], nested[5], nested[6], nested[7] = byte(d), opt, 0x10, byte(pl), byte(pl>>8)
+						for i := 8; i < len(nested); i++ {
+							nested[i] = byte('a' + i)
+						}
+						body := append(append(append([]byte{}, eb...), nested...), make([]byte, pad)...)
+						n := 2 + len(body)
+						outer := append([]byte{byte(n), byte(n >> 8), 0, 0, stage<<6 | 5, 0}, body...)
+						parts := [][]byte{lockFrame(1, 0x20, 0, 0, 0, 30, 0, 5, 5), outer}
+						if stage == 1 {
+							parts = append(parts, lockFrame(2, 0, 0, 0, 0, 0, 0, 0, 0))
+						}
+						st := whole(fmt.Sprintf("bin/nested-value/stage%d/op%d/len%d/prop%d/pad%d", stage, opt, d, pl, pad), parts...)
+						st.After = after
+						out = append(out, st)
+					}
+				}
+			}
+		}
+	}
+	return out
+}
+
 func c13Group(name string, quick bool) []c13Stream {
 	switch name {
+	case "nested-value":
+		return c13NestedValueStreams(quick)
+	case "sync-handshake":
+		return c13SyncHandshakeStreams(quick)
 	case "handover":
 		return c13HandoverStreams(quick)
 	case "input-edge":
@@ -780,7 +889,7 @@ func c13Group(name string, quick bool) []c13Stream {
 
 func c13Cases(quick bool) []EnumCase {
 	var out []EnumCase
-	for _, g := range []string{"binary", "text", "split", "pipeline", "keystate", "handover", "input-edge", "follower"} {
+	for _, g := range []string{"binary", "text", "split", "pipeline", "keystate", "handover", "input-edge", "follower", "nested-value", "sync-handshake"} {
 		n := len(c13Group(g, quick))
 		chunk := 60
 		for f := 0; f < n; f += chunk {
